@@ -1611,8 +1611,10 @@ func (c *Client) handleAcquired() error {
 	default:
 	}
 	c.acquired = true
-	c.acquireResultChan <- nil
+	// Reset the cached era before signalling the waiting caller, which may
+	// read or write it as soon as it is woken up
 	c.currentEra = -1
+	c.acquireResultChan <- nil
 	return nil
 }
 
